@@ -25,7 +25,9 @@ from mc.sched import ReplayMismatch
 ID = "C06"
 LEVEL = "model_checking"
 EXHAUSTIVE = True
-RULE = ("(A) all assignments of a k-tree sample to 3 sub-arrays x builder op x arrival permutation x merge op "
+RULE = ("(A2) every history [j trees added one at a time; one read; k-j more trees; two further reads in either order] over reads "
+        "{frequencies, length summaries, age summaries, consensus tree, summarize-on-tree}, each read compared with the same read on "
+        "a collection filled in one go; (A) all assignments of a k-tree sample to 3 sub-arrays x builder op x arrival permutation x merge op "
         "{update, extend, +=, +} x target {fresh, first part} x rooting {explicit, implicit} x tree rooting; "
         "(B) every Mazurkiewicz trace class of the real parallel_analyze_trees/TreeAnalysisWorker.run for W workers x "
         "F files x schema x rooting configuration, 0..D spurious-Empty deviations; (C) every terminal trace class of "
@@ -165,6 +167,134 @@ def merge_case(case, ctx):
     if diff:
         ctx.violation("merge|%s|summary-differs|%s" % (mop, "+".join(diff[:3])),
                       "merged summary differs from serial in %s (e.g. %s: %r vs %r)" % (diff, diff[0], got.get(diff[0]), want.get(diff[0])), case)
+
+
+# ---------------------------------------------------------------------------
+# (A2) trees added one at a time with reads in between: "added one at a time in any order" also
+# quantifies over collections that are looked at while they are being filled
+
+def _canon(v):
+    if isinstance(v, float):
+        return round(v, 9)
+    if isinstance(v, (list, tuple)):
+        return tuple(_canon(x) for x in v)
+    if isinstance(v, dict):
+        return tuple(sorted((str(k), _canon(x)) for k, x in v.items()))
+    if isinstance(v, (int, str, bool)) or v is None:
+        return v
+    return str(v)
+
+
+def _table(t):
+    return tuple(sorted((int(k), _canon(v)) for k, v in t.items()))
+
+
+def _summarized(ta, rooted, ns):
+    target = make_tree(0, rooted, ns)
+    ta.summarize_splits_on_tree(target)
+    out = {}
+
+    def rec(nd):
+        if not nd._child_nodes:
+            cl = frozenset([nd.taxon._label])
+        else:
+            cl = frozenset()
+            for c in nd._child_nodes:
+                cl |= rec(c)
+        ann = sorted((str(a.name), _canon(a.value)) for a in nd.annotations) + sorted(
+            ("edge:" + str(a.name), _canon(a.value)) for a in nd.edge.annotations)
+        out[tuple(sorted(cl))] = (_canon(getattr(nd, "support", None)), _canon(nd.edge.length), tuple(ann))
+        return cl
+    rec(target._seed_node)
+    return tuple(sorted(out.items()))
+
+
+def _consensus(ta):
+    ct = ta.consensus_tree(min_freq=0.5)
+    out = {}
+
+    def rec(nd):
+        if not nd._child_nodes:
+            cl = frozenset([nd.taxon._label])
+        else:
+            cl = frozenset()
+            for c in nd._child_nodes:
+                cl |= rec(c)
+        out[tuple(sorted(cl))] = (_canon(getattr(nd, "support", None)), _canon(nd.edge.length))
+        return cl
+    rec(ct._seed_node)
+    return tuple(sorted(out.items()))
+
+
+READS = {
+    "frequencies": lambda ta, rooted, ns: _table(ta._split_distribution.split_frequencies),
+    "length-summaries": lambda ta, rooted, ns: _table(ta._split_distribution.split_edge_length_summaries),
+    "age-summaries": lambda ta, rooted, ns: _table(ta._split_distribution.split_node_age_summaries),
+    "consensus": lambda ta, rooted, ns: _consensus(ta),
+    "summarize-on-tree": lambda ta, rooted, ns: _summarized(ta, rooted, ns),
+}
+READ_ORDER = ["frequencies", "length-summaries", "age-summaries", "consensus", "summarize-on-tree"]
+
+
+def _add(ta, t, bop):
+    if bop == "add_tree":
+        ta.add_tree(t)
+    elif bop == "append":
+        ta.append(t)
+    else:
+        ta.insert(0, t)
+
+
+def interleave_case(case, ctx):
+    k, rooted, bop, j, r1, r2a, r2b = case["k"], case["rooted"], case["bop"], case["j"], case["interim"], case["first"], case["second"]
+    ns = dendropy.TaxonNamespace(LABELS)
+    ta = new_array(ns, rooted)
+    try:
+        for i in range(k):
+            if i == j and r1 is not None:
+                READS[r1](ta, rooted, ns)
+            _add(ta, make_tree(i, rooted, ns), bop)
+        got = [READS[r2a](ta, rooted, ns), READS[r2b](ta, rooted, ns)]
+    except Exception as e:
+        ctx.violation("fill-and-read|exception|%s" % type(e).__name__, "history %r raised %r" % (case, e), case)
+        return
+    for name, g in zip((r2a, r2b), got):
+        fresh = new_array(ns, rooted)
+        for i in range(k):
+            _add(fresh, make_tree(i, rooted, ns), bop)
+        want = READS[name](fresh, rooted, ns)
+        if g != want:
+            ctx.violation("fill-and-read|%s|after:%s+additions|read-%s" % (name, r1, "first" if name == r2a and g is got[0] else "second"),
+                          "%s read after [%d trees; %s; %d more trees%s] differs from the same read on a collection filled in one go: %r vs %r" % (
+                              name, j, r1, k - j, "" if name == r2a else "; " + r2a, g[:2], want[:2]), case)
+            return
+
+
+def run_A2(chunk, ctx):
+    k, rooted, bop = chunk["k"], chunk["rooted"], chunk["bop"]
+    n = 0
+    for j in range(1, k):
+        for r1 in [None] + READ_ORDER:
+            for r2a in READ_ORDER:
+                for r2b in READ_ORDER:
+                    if r2a == r2b:
+                        continue
+                    case = {"kind": "fill-and-read", "k": k, "rooted": rooted, "bop": bop, "j": j, "interim": r1, "first": r2a, "second": r2b}
+                    ctx.case(("fill-and-read", k, rooted, bop, j, r1, r2a, r2b))
+                    ctx.count("A2_fill_and_read_histories")
+                    ctx.count("transitions")
+                    interleave_case(case, ctx)
+                    n += 1
+    ctx.count("states", n)
+
+
+def chunks_A2(tier):
+    out = []
+    for k in bounds(tier)["A_sample_sizes"]:
+        for rooted in (True, False):
+            for bop in ("add_tree", "append", "insert0"):
+                out.append({"part": "A2", "k": k, "rooted": rooted, "bop": bop})
+    return out
 
 
 def chunks_A(tier):
@@ -378,6 +508,7 @@ def explore(tier, runner):
             make_cfg(s)
         # (A)
         runner.map("run_A", chunks_A(tier))
+        runner.map("run_A2", chunks_A2(tier))
         # (B)
         chunksB = []
         for spec in specs:
@@ -458,6 +589,8 @@ def replay(case, ctx):
     try:
         if k == "merge":
             merge_case(case, ctx)
+        elif k == "fill-and-read":
+            interleave_case(case, ctx)
         elif k == "schedule":
             spec = tuple(case["spec"])
             cfg = make_cfg(spec)
